@@ -109,6 +109,16 @@ func init() {
 		"(*" + tgPath + ".ThreadGroup).Stop":      noEffect,
 		"(*" + tgPath + ".ThreadGroup).StopChan":  noEffect,
 		"bytes.Equal":                             bytesEqual,
+		"(*os.File).Write":                        fsWrite,
+		"(*os.File).WriteAt":                      fsWrite,
+		"(*os.File).WriteString":                  fsWrite,
+		"os.WriteFile":                            fsWrite,
+		"io/ioutil.WriteFile":                     fsWrite,
+		"os.Create":                               fsWrite,
+		"os.OpenFile":                             fsOpen,
+		"os.MkdirAll":                             fsWrite,
+		"os.Remove":                               fsWrite,
+		"os.Rename":                               fsWrite,
 		"sort.Slice":                              sortSlice,
 	}
 	externalModels = map[string]intrinsic{}
@@ -251,9 +261,54 @@ func timeUnix(ex *Exec, st *State, fr *Frame, callee *ssa.Function, args []Val, 
 	return Sc{app("TimeUnix", sc(args[0]).T), BV(64)}
 }
 
+// msgId: identity of a byte sequence of constant length given as a packed
+// vector: an uninterpreted function per length (equal content => equal id).
+func (ex *Exec) msgId(packed Sc) string {
+	n := packed.S.Width() / 8
+	fn := fmt.Sprintf("MsgK_%d", n)
+	ex.vc.DeclareFun(fn, []Sort{packed.S}, BV(64))
+	return app(fn, packed.T)
+}
+
+// ghostComp: ghost counters live in the heap as components indexed at ref 0,
+// so that assigns clauses and havoc treat them like any other location.
+func (ex *Exec) ghostComp(st *State, name string) string {
+	key := "Ghost_" + strings.TrimPrefix(name, "$")
+	return sel(ex.comp(st, key, ArrS(SRef, BV(64))), z64())
+}
+
+func (ex *Exec) ghostBump(st *State, name string) {
+	key := "Ghost_" + strings.TrimPrefix(name, "$")
+	if ex.assignsOn && !ex.assignsAll {
+		listed := false
+		for _, p := range ex.assigns {
+			if p.prefix == key {
+				listed = true
+			}
+		}
+		if !listed {
+			ex.oblige(st, ex.curFrame, "assigns", token.NoPos, "ghost "+name+" is modified but not listed in assigns", "false")
+		}
+	}
+	s := ArrS(SRef, BV(64))
+	cur := ex.comp(st, key, s)
+	ex.setComp(st, key, s, sto(cur, z64(), app("bvadd", sel(cur, z64()), bvInt(1, 64))))
+}
+
 // bytesId gives the abstract identity of a byte sequence (content and length).
 func (ex *Exec) bytesId(st *State, v Val, t types.Type) string {
 	sv := ex.viewSlice(v, t)
+	if n, ok := constBV(sv.ln); ok && n > 0 && n <= 160 {
+		parts := make([]string, 0, n)
+		for i := int64(n) - 1; i >= 0; i-- {
+			parts = append(parts, sc(ex.load(st, sv.elemAddr(bvInt(i, 64)))).T)
+		}
+		t := parts[0]
+		if len(parts) > 1 {
+			t = "(concat " + strings.Join(parts, " ") + ")"
+		}
+		return ex.msgId(Sc{ex.vc.Bind("msgbytes", BV(8*int(n)), t), BV(8 * int(n))})
+	}
 	if sv.root {
 		m := sc(ex.heapTree(st, AElems, sv.elemT)).T
 		return app("BytesId", sel(m, sv.ref), sv.off, sv.ln)
@@ -329,4 +384,22 @@ func (vc *VC) DeclareFun(name string, args []Sort, res Sort) {
 		as = append(as, string(a))
 	}
 	vc.cmds = append(vc.cmds, fmt.Sprintf("(declare-fun %s (%s) %s)", name, strings.Join(as, " "), res))
+}
+
+// File-system mutations bump the ghost counter $fsWrites ("the persisted
+// state was touched"); results are unconstrained (the call may fail).
+func fsWrite(ex *Exec, st *State, fr *Frame, callee *ssa.Function, args []Val, c *ssa.CallCommon, pos token.Pos) Val {
+	ex.ghostBump(st, "$fsWrites")
+	ex.vc.Trust("file-system calls (" + callee.Name() + "): results unconstrained, no effect on verified memory; $fsWrites counts mutating calls")
+	return ex.freshResults(st, c.Signature().Results(), "fs")
+}
+
+// os.OpenFile mutates the file system only with O_CREATE / O_TRUNC.
+func fsOpen(ex *Exec, st *State, fr *Frame, callee *ssa.Function, args []Val, c *ssa.CallCommon, pos token.Pos) Val {
+	flag := sc(args[1]).T
+	if v, ok := constBV(flag); !ok || v&(0x40|0x200) != 0 {
+		ex.ghostBump(st, "$fsWrites")
+	}
+	ex.vc.Trust("file-system calls (OpenFile): results unconstrained, no effect on verified memory")
+	return ex.freshResults(st, c.Signature().Results(), "fs")
 }
